@@ -188,6 +188,7 @@ def structural(spec, fview, n, names, vals, p, sig, case, desc, stats):
 
 
 def work_spec(spec, stats):
+    check_odd_keywords(spec, stats)
     fview = universe.spec_view(spec)
     P = cpbind.poscap(fview)
     cand = sorted(cpbind.kwpassable(fview)) + ['q']
@@ -405,6 +406,40 @@ def check_sequence(spec, stats):
         stats.fail('C19/sequence/function-after-partial', case, 'signature of the function changed after its partial objects were inspected: %r vs %r' % (own, own1))
 
 
+def check_odd_keywords(spec, stats):
+    """Keywords absorbed by **kwargs that are not identifiers (or are Python keywords) make a legal partial object."""
+    import sigtools
+    from sigtools import signatures
+    if not any(p.kind == VK for p in spec):
+        return
+    f = realfn.plain_function(spec, 'f')
+    fview = universe.spec_view(spec)
+    for odd in ({'x-y': 1}, {'class': 1}, {'x-y': 1, 'q': 2}):
+        p = functools.partial(f, **odd)
+        for which, getter in (('signatures.signature', signatures.signature), ('sigtools.signature', sigtools.signature)):
+            stats.case()
+            stats.cls('odd-keywords')
+            case = {'kind': 'odd-keywords', 'spec': list(map(list, spec)), 'keywords': sorted(odd)}
+            desc = 'partial(f(%s), **%r) via %s' % (universe.spec_text(spec), odd, which)
+            try:
+                inspect.signature(p)
+            except (ValueError, TypeError):
+                continue
+            try:
+                sig = getter(p)
+            except Exception as e:
+                stats.fail('C19/odd-keywords/raised', case, '%s raised %s: %s where inspect.signature succeeds' % (desc, type(e).__name__, e))
+                continue
+            rb = cpbind.binder(universe.sig_view(sig))
+            for m, K in shapes():
+                if set(K) & set(odd):
+                    continue
+                if rb.accepts(m, K) != real_accepts(p, m, K) and all(k in cpbind.kwpassable(universe.sig_view(sig)) or k not in set(x for x, k_, d in fview) for k in K):
+                    stats.fail('C19/odd-keywords/differs', dict(case, shape=[m, list(K)]), '%s -> %s disagrees with the partial object on (npos=%d, kw=%s)' % (desc, sig, m, list(K)))
+                    break
+            stats.nontriv(('odd', universe.spec_text(spec), tuple(sorted(odd))))
+
+
 class PSub(functools.partial):
     """A subclass of functools.partial (a command object, say): a partial object like any other."""
 
@@ -542,6 +577,9 @@ def run(ctx):
 def replay(case, stats):
     if case.get('kind') == 'sequence':
         check_sequence(tuple(Par(*p) for p in case['spec']), stats)
+        return
+    if case.get('kind') == 'odd-keywords':
+        check_odd_keywords(tuple(Par(*p) for p in case['spec']), stats)
         return
     if case.get('kind') == 'chain':
         check_chain_partial(tuple(Par(*p) for p in case['inner']), case['nbound'], stats)
